@@ -59,7 +59,7 @@ func init() {
 		Init:   core.QuietLogs,
 		Extra: func(tier string, counters map[string]int64) map[string]interface{} {
 			return map[string]interface{}{
-				"exhaustive": map[string]interface{}{
+				"enumeration": map[string]interface{}{
 					"lane_b_per_enumerated_request": "both key-file states reachable through WriteFileAtomic (OLD + stray temp file, NEW) x both re-issue orders (same payload first / other payload first)",
 					"lane_a_per_strace_request":     "12 points: openat/write/close/renameat x {error, SIGKILL on entry} (write: EIO and ENOSPC), unlinkat SIGKILL (= after the rename), SIGKILL before the signature is handed out, process exit right after handing it out; each verified in the strace log, unverified ones are counted as miscalibrated and not claimed",
 					"requests_enumerated":           counters["crash_requests_enumerated"],
@@ -73,7 +73,7 @@ func init() {
 
 func cases(tier string) int {
 	if tier == "thorough" {
-		return 20000
+		return 12000
 	}
 	return 1200
 }
